@@ -22,10 +22,11 @@ def init():
 def pools(seed):
     """VERIF_SEED only picks the concrete key numbers for the abstract alphabet"""
     if seed == 0:
-        return {"rc": ["1", "2", "3", "4", "2005", "499"], "hint": ["501", "502", "503", "500", "900", "777"],
-                "fc": ["901", "902", "903", "904", "999", "950"]}
+        # range boundaries early in every pool (restricted-growth labellings use the first k keys of a pool)
+        return {"rc": ["1", "2005", "499", "2", "2499", "3"], "hint": ["501", "900", "500", "502", "777", "503"],
+                "fc": ["901", "999", "902", "903", "950", "904"]}
     rnd = random.Random(seed)
-    rc = [str(x) for x in rnd.sample(range(1, 500), 4)] + [str(rnd.randrange(2000, 2500)), str(rnd.randrange(1, 500))]
+    rc = [str(rnd.randrange(1, 500)), str(rnd.randrange(2000, 2500))] + [str(x) for x in rnd.sample(range(1, 500), 3)] + [str(rnd.randrange(2000, 2500))]
     rc = list(dict.fromkeys(rc))
     while len(rc) < 6:
         rc.append(str(rnd.randrange(2000, 2500)))
